@@ -21,11 +21,13 @@ META = {
 
 
 def letters(dsmax):
-    paths = {'p': b'/p', 'e': b'', 'L': b'P' * 3000}
+    paths = {'p': b'/p', 'e': b'', 'L': b'P' * 3000, 'u': b'/' + b'u' * (dsmax - 3) + b'\xe2\x82'}     # 'u': a path of exactly the limit, ending in a partial multi-byte character
     argvs = {
         'NULL': None, 'a0NULL': [], 'emptystr': [b''], 'a': [b'a'], 'xyz': [b'x', b'y z', b''],
         'lim-1': [b'k' * 100, b'm' * (dsmax - 1 - 101)], 'lim': [b'k' * 100, b'm' * (dsmax - 101)], 'lim+1': [b'k' * 100, b'm' * (dsmax + 1 - 101)],
         'x10': [b'q' * dsmax] * 10, 'n3000': [b'ab'] * 3000,
+        # the joined text fills the limit EXACTLY (nothing is cut) and ends in bytes that look like the start of a multi-byte character
+        'lim_utf8lead': [b'k' * 100, b'm' * (dsmax - 102) + b'\xc3'], 'lim_utf8two': [b'k' * 100, b'm' * (dsmax - 103) + b'\xe2\x82'], 'lim_latin1': [b'k' * 100, b'm' * (dsmax - 105) + b'caf\xe9'],
         # many empty strings then a real argument, total just below the limit (one byte per argument: separator only)
         'empties': [b''] * (dsmax - 10) + [b'END'],
         # control bytes: a line feed inside an argument and as the very last byte of the last argument
@@ -38,6 +40,8 @@ def letters(dsmax):
         for pk, p in paths.items():
             for ak, a in argvs.items():
                 name = '%s:%s:%s' % (fn, pk, ak)
+                if (ak.startswith('lim_') and (fn, pk) != ('execve', 'p')) or (pk == 'u' and (fn, ak) not in (('execve', 'a'), ('execv', 'NULL'))):
+                    continue
                 if a is None:
                     av = None
                 elif ak == 'n3000':
